@@ -3,13 +3,15 @@
    (C07_collapse_clusters: the non-whitespace cluster sequence is kept, only single U+0020
    remain as white space; C07_collapse_space_idempotent) for every classifier, under the
    stated condition that no cluster can merge with a space placed next to it - without it
-   the property is false of the code (DESIGN.md section 7, KF1). For Justify see
-   C12_exact_width_even_gaps (the words are kept, only gaps grow), for Align C13 (the kept
-   clusters are copied verbatim). Wrap, Indent and the paragraph plumbing are judged on
-   every generated case by the executable checkers check_C07_*. *)
+   the property is false of the code (DESIGN.md section 7, KF1). For the three AlignLine
+   functions and for JustifyLine the statement itself is proved: the non-white-space clusters
+   of the result are those of the line, in order (C07_align_line_keeps_text,
+   C07_justify_line_keeps_text). Wrap: C07_wrap_words; Indent: C07_indent_lines. The
+   paragraph plumbing is judged on every generated case by the executable checkers
+   check_C07_*. *)
 From Coq Require Import List Bool ZArith Lia.
 Import ListNotations.
-From Rosed Require Import Base.Res Base.Str Gem.Segment Gem.GString Model.Manip Model.Table Model.Tb Proofs.SeamP Proofs.C13P Proofs.C07P Proofs.C07Q Proofs.C06R Base.Utf8 Model.Options Model.Editor Model.Ops Proofs.OpsMapP.
+From Rosed Require Import Base.Res Base.Str Gem.Segment Gem.GString Model.Manip Model.Table Model.Tb Proofs.SeamP Proofs.C13P Proofs.C07P Proofs.C07Q Proofs.C06R Base.Utf8 Model.Options Model.Editor Model.Ops Proofs.OpsMapP Proofs.C12R Proofs.C07R.
 Open Scope Z_scope.
 
 (* after CollapseSpace no two U+0020 are adjacent, for every text and separator *)
@@ -78,3 +80,24 @@ Print Assumptions C07_indent_lines.
 Theorem C07_indent_nop : forall (C : Classifier) (U : Upper) level opts e, level < 1 -> indent_opts level opts e = Ok e.
 Proof. intros C U. exact indent_opts_nop. Qed.
 Print Assumptions C07_indent_nop.
+
+(* AlignLineLeft / Right / Center: the sequence of non-white-space clusters of the aligned line is
+   that of the line (only white-space clusters at the ends are removed, only U+0020 is added);
+   the conditions exclude a line whose end could merge with the padding placed next to it *)
+Theorem C07_align_line_keeps_text : forall (C : Classifier) (K : ClassifierOk) (text : gstr) (w : Z),
+  (ends_ok text -> nonws (clusters (align_left text w)) = nonws (clusters text)) /\
+  (starts_ok text -> nonws (clusters (align_right text w)) = nonws (clusters text)) /\
+  (all_safe text -> nonws (clusters (align_center text w)) = nonws (clusters text)).
+Proof.
+  intros C K text w.
+  exact (conj (align_left_keeps_text text w) (conj (align_right_keeps_text text w) (align_center_keeps_text text w))).
+Qed.
+Print Assumptions C07_align_line_keeps_text.
+
+(* JustifyLine: the non-white-space clusters of the justified line are those of the collapsed
+   line (hence, by C07_collapse_clusters, of the line), when no word can merge with a space *)
+Theorem C07_justify_line_keeps_text : forall (C : Classifier) (K : ClassifierOk) (U : Upper) text w c r,
+  collapse_space text [10] = Ok c -> Forall word_ok (split c [SP]) -> justify_line text w = Ok r ->
+  nonws (clusters r) = nonws (clusters c).
+Proof. intros C K U. exact justify_line_keeps_text. Qed.
+Print Assumptions C07_justify_line_keeps_text.
